@@ -6,7 +6,7 @@
     address parsing, data directory), which enter as the oracle record [O]. *)
 From Coq Require Import List ZArith String.
 From AGH Require Import Model.Migrate Proofs.Migrate Proofs.MigrateFrame Proofs.MigrateSim
-  Proofs.MigrateTable Gen.MigrateTable Proofs.MigrateFrameDns.
+  Proofs.MigrateTable Gen.MigrateTable Proofs.MigrateFrameDns Proofs.MigrateElems.
 Import ListNotations.
 Local Open Scope string_scope.
 Local Open Scope Z_scope.
@@ -148,3 +148,91 @@ Proof.
   split; [exact doc_error|]. split; [exact doc_null_document|reflexivity].
 Qed.
 Print Assumptions C13_premises_satisfiable.
+
+(** ** Lists: every element is treated on its own
+
+    The Go steps mutate maps and slices in place, so a step could hand ONE
+    map to several list elements; the tree model cannot express that.  What
+    agreement with the model means for the code is stated here: the list of
+    persistent clients of the upgraded document is the element-wise image of
+    the input's list under [elem_upgrade] (the composition of the per-client
+    functions of steps 4, 6, 19 and 22; step 14 moves the list), a function
+    of the client alone.  The harness checks the same on the real code with
+    documents of several clients that differ in every field a step reads. *)
+Theorem C13_clients_elementwise : forall O top t a l,
+  migrate O top t = ONew a -> clients_at (nat_version (input_map top)) (input_map top) = Some l ->
+  exists l', clients_at (Z.to_nat t) a = Some l' /\
+             map_res (elem_upgrade (nat_version (input_map top)) (Z.to_nat t)) l = Ok l'.
+Proof. exact migrate_clients_elementwise. Qed.
+Print Assumptions C13_clients_elementwise.
+
+(** Independence: if two documents of the same version hold the same client
+    at position [i], so do their upgrades, whatever else differs (the other
+    clients, the other sections, the external functions). *)
+Theorem C13_client_independent : forall O1 O2 top1 top2 t a1 a2 l1 l2 i c,
+  migrate O1 top1 t = ONew a1 -> migrate O2 top2 t = ONew a2 ->
+  nat_version (input_map top1) = nat_version (input_map top2) ->
+  clients_at (nat_version (input_map top1)) (input_map top1) = Some l1 ->
+  clients_at (nat_version (input_map top2)) (input_map top2) = Some l2 ->
+  nth_error l1 i = Some c -> nth_error l2 i = Some c ->
+  exists l1' l2' c',
+    clients_at (Z.to_nat t) a1 = Some l1' /\ clients_at (Z.to_nat t) a2 = Some l2' /\
+    nth_error l1' i = Some c' /\ nth_error l2' i = Some c' /\
+    elem_upgrade (nat_version (input_map top1)) (Z.to_nat t) c = Ok c'.
+Proof. exact migrate_client_independent. Qed.
+Print Assumptions C13_client_independent.
+
+(** Frame for list elements: a setting of the client at position [i] outside
+    [client_written] (name, tags, upstreams, the other switches) keeps its
+    value. *)
+Theorem C13_frame_client : forall O top t a l i o k,
+  migrate O top t = ONew a -> clients_at (nat_version (input_map top)) (input_map top) = Some l ->
+  nth_error l i = Some (VObj o) -> mem_b k client_written = false ->
+  exists l' o', clients_at (Z.to_nat t) a = Some l' /\ nth_error l' i = Some (VObj o') /\
+                get k o' = get k o.
+Proof. exact migrate_client_frame. Qed.
+Print Assumptions C13_frame_client.
+
+(** The other lists a step walks over: upstreams (step 10), ignored names
+    (step 27), filters (step 29; the patterns are the concatenation of what
+    each filter contributes). *)
+Theorem C13_upstreams_elementwise : forall O m m' d k l,
+  k = "upstream_dns" \/ k = "local_ptr_upstreams" ->
+  step10 O (Some m) = Ok m' -> get "dns" m = Some (VObj d) -> get k d = Some (VArr l) ->
+  exists d' l', get "dns" m' = Some (VObj d') /\ get k d' = Some (VArr l') /\
+                map_res (quic_elem O) l = Ok l'.
+Proof. exact step10_elementwise. Qed.
+Print Assumptions C13_upstreams_elementwise.
+
+Theorem C13_ignored_elementwise : forall k m m' q l,
+  replace_dot k m = Ok m' -> get k m = Some (VObj q) -> get "ignored" q = Some (VArr l) ->
+  exists q', get k m' = Some (VObj q') /\ get "ignored" q' = Some (VArr (map dot27 l)).
+Proof. exact replace_dot_elementwise. Qed.
+Print Assumptions C13_ignored_elementwise.
+
+Theorem C13_safe_patterns_elementwise : forall O m m' fl f,
+  step29 O (Some m) = Ok m' -> get "filters" m = Some (VArr fl) -> get "filtering" m = Some (VObj f) ->
+  exists ps f', map_res filter29 fl = Ok ps /\ get "filtering" m' = Some (VObj f') /\
+    get "safe_fs_patterns" f' = Some (VStrs (o_glob O :: List.concat ps)) /\
+    get "filters" m' = Some (VArr fl).
+Proof. exact step29_elementwise. Qed.
+Print Assumptions C13_safe_patterns_elementwise.
+
+(** Non-vacuity: three clients at version 3 that differ in ip/mac, the safe
+    search switch and the blocked services each keep their own after the
+    upgrade to 29. *)
+Example C13_clients_satisfiable :
+  exists a l',
+    migrate oracles0 (Some doc3_clients) 29 = ONew a /\ clients_at 29 a = Some l' /\
+    map (fun c => get "safe_search" (zobj c)) l' =
+      [Some (VObj (upd "enabled" (VBool false) safe_search0));
+       Some (VObj safe_search0); Some (VObj safe_search0)] /\
+    map (fun c => get "ids" (zobj c)) l' =
+      [Some (VArr [VStr "10.0.0.1"]); Some (VArr [VStr "aa:bb:cc:dd:ee:01"]);
+       Some (VArr [VStr "10.0.0.3"; VStr "aa:bb:cc:dd:ee:03"])] /\
+    map (fun c => get "blocked_services" (zobj c)) l' =
+      [Some (VObj [("ids", VArr [VStr "500px"]); ("schedule", schedule0)]);
+       Some (VObj [("ids", VArr [VStr "9gag"; VStr "amazon"]); ("schedule", schedule0)]); None] /\
+    map (fun c => get "name" (zobj c)) l' = [Some (VStr "a"); Some (VStr "b"); Some (VStr "c")].
+Proof. exact doc3_clients_upgrade. Qed.
+Print Assumptions C13_clients_satisfiable.
